@@ -456,6 +456,10 @@ pub(crate) fn load_defs(ctx: &mut Context, defs: Defs) -> Vec<String> {
                 Err(e) => resolver.errors.push(format!("{} is malformed: {}", id, e)),
             },
             Def::Prefix { ref expr, is_long } => match eval_prefix(&prefix_lookup, &expr.0) {
+                // Prefixes are divided by when picking one for display.
+                Ok(value) if value == Numeric::zero() || value == Numeric::Float(0.0) => resolver
+                    .errors
+                    .push(format!("Prefix {name}: has a value of zero")),
                 Ok(value) => {
                     prefix_lookup.insert(name.clone(), value.clone());
                     ctx.registry.prefixes.push((name.clone(), value.clone()));
